@@ -73,7 +73,14 @@ let valid_cur (t : ascii list) = Hashtbl.mem currencies (string_of_text t)
 let mk_dec m sc = { d_mant = n_of_z (z_of_string m); d_scale = nat_of_int (int_of_string sc) }
 let mk_money m sc cur = { m_amt = mk_dec m sc; m_cur = text_of_string cur }
 
+let opt_field (f : Stdlib.String.t) = if f = "-" then None else Some (text_of_string (unhex (String.sub f 1 (String.length f - 1))))
+let req_field (f : Stdlib.String.t) = match opt_field f with Some t -> t | None -> []
+let serr_s = function EInvalidTransaction -> "InvalidTransaction" | EInvalidDate -> "InvalidDate" | EInvalidAmount -> "InvalidAmount"
+  | EMissingFmv -> "MissingFmv" | EUnsupported -> "Unsupported"
+let rec int_of_nat = function O -> 0 | S k -> 1 + int_of_nat k
+
 let () =
+  let rows = ref [] and awards = ref None and cur_details = ref [] in
   let dtx = ref [] in
   let txs = ref [] and exs = ref [] and yf = ref None and id = ref "" in
   let reset () = txs := []; exs := []; yf := None in
@@ -82,7 +89,22 @@ let () =
     let t = String.split_on_char ' ' (String.trim line) in
     let q = qc_of_string in
     match t with
-    | ["CASE"; i] -> reset (); dtx := []; id := i
+    | ["CASE"; i] -> reset (); dtx := []; rows := []; awards := None; cur_details := []; id := i
+    | ["ROW"; a; d; sy; de; q; p; f; am] ->
+        rows := { r_action = opt_field a; r_date = opt_field d; r_symbol = opt_field sy; r_desc = opt_field de;
+                  r_qty = opt_field q; r_price = opt_field p; r_fees = opt_field f; r_amount = opt_field am } :: !rows
+    | ["AWARDS"] -> awards := Some []
+    | ["AD"; fp; vd; vf] -> cur_details := { a_fmv_price = opt_field fp; a_vest_date = opt_field vd; a_vest_fmv = opt_field vf } :: !cur_details
+    | ["AW"; d; a; sy] ->
+        (* an award record closes the AD lines written before it *)
+        let aw = { aw_date = req_field d; aw_action = opt_field a; aw_symbol = req_field sy; aw_details = List.rev !cur_details } in
+        cur_details := [];
+        awards := Some (aw :: (match !awards with Some l -> l | None -> []))
+    | ["RUN"; "schwab"] ->
+        (match convert lookback0 (List.rev !rows) (match !awards with Some l -> Some (List.rev l) | None -> None) with
+         | Err e -> Printf.printf "{\"id\":%s,\"ok\":false,\"kind\":%s}\n" (js !id) (js (serr_s e))
+         | Ok o -> Printf.printf "{\"id\":%s,\"ok\":true,\"lines_hex\":%s,\"warnings\":%d,\"skipped\":%d}\n" (js !id)
+                     (jlist (fun l -> js (hex (string_of_text l))) o.o_lines) (int_of_nat o.o_warnings) (int_of_nat o.o_skipped))
     | ["RUN"; "fmt"; kind; arg] ->
         (* one display function applied to one value; result as hex text *)
         let out = (match kind with
